@@ -29,7 +29,7 @@ func init() {
 		Title: "Parsing is total: junk is rejected cleanly, accepted trees are well-formed",
 		Rule: "E1: every byte string of length <=2 and every string of length 3 over a 40-byte alphabet; UTF-8 malformations at every position of carrier programs; " +
 			"every token string up to the stated length over ten 16-token alphabets; every byte prefix and every single-token deletion / insertion / replacement / adjacent swap " +
-			"(thorough: all pairs of edits for the 30 shortest) of a corpus of valid programs. A case is non-trivial when otto accepted it (reference consulted, spans and Walk checked on every node) " +
+			"(thorough: all pairs of edits for the 30 shortest) of a corpus of valid programs; parser.ParseFunction on every (parameter text, body text) pair built from strings over 16 fragments (single tokens and the wrapper-closing / re-opening pieces }) and (function( and ){ ): one side every string of length <=4 (thorough 5) with three fixed partners, and both sides every string of length <=2, accepted only when each piece is a FormalParameterList / FunctionBody on its own and the literal spans the whole wrapper. A case is non-trivial when otto accepted it (reference consulted, spans and Walk checked on every node) " +
 			"or rejected it after consuming at least one token (error position beyond offset 0); every case is also run on a runtime and its global state compared.",
 		Families: []engine.Family{
 			{Name: "bytes", Run: runBytes},
@@ -49,6 +49,7 @@ func init() {
 			{Name: "deep", Run: runDeep},
 			{Name: "deepchild", Run: runDeepChild},
 			{Name: "earlyerrors", Run: runEarlyErrors},
+			{Name: "parsefunction", Run: runParseFunction},
 		},
 		Assumptions: []string{
 			"ref/syntax is a faithful recogniser of ES5.1 programs (see C03); only its reject verdicts are used here, and where it is deliberately lenient (call expressions as assignment targets, regexp bodies with ] { } or incomplete escapes) no claim is made",
@@ -84,6 +85,7 @@ func init() {
 	engine.RegisterSignature("c04-idx-empty-list", sigIdxEmptyList)
 	engine.RegisterSignature("c04-walk-typed-nil", sigWalkTypedNil)
 	engine.RegisterSignature("c04-silent-bad-node", sigSilentBadNode)
+	engine.RegisterSignature("c04-parsefunction-joint", sigParseFunctionJoint)
 }
 
 // explains: otto accepted text that the reference rejects, and the reference
